@@ -473,7 +473,10 @@ def cut_case(rng, nmax=9, kmax=4, kinds=None, p_kekule=0.2):
     glevel = {'atoms': [[a, m.nodes[a]['element'], m.nodes[a]['charge'], bool(m.nodes[a]['aromatic'])] for a in m],
               'bonds': gbonds,
               'parts': [[names[p], list(orders[p])] for p in numbering],
-              'dord': [[a, [n + str(o) for n, o in desc[a]]] for a in desc]}
+              'dord': [[a, [n + str(o) for n, o in desc[a]]] for a in desc],
+              # the uncut molecule as the single-fragment string writes it: atoms in text order; whether it is the same
+              # written molecule as the cut string's (not when one of them was kekulized)
+              'single_order': list(single_order), 'single_same': ms is m}
     return {'s': base + '.' + frs, 'single': single, 'mol': mol_dump(m0), 'ncuts': len(cuts), 'nparts': len(parts),
             'kind': kind, 'cutinfo': cutinfo, 'kekule': kek, 'glevel': glevel}
 
